@@ -36,7 +36,8 @@ RULE = ('L1: random outcomes (return / 10 Exception classes / 3 BaseException cl
 EXC = {'ValueError': ValueError, 'KeyError': KeyError, 'AssertionError': AssertionError, 'IndexError': IndexError,
        'RuntimeError': RuntimeError, 'TypeError': TypeError, 'MemoryError': MemoryError, 'RecursionError': RecursionError,
        'StopIteration': StopIteration, 'OSError': OSError}
-BASE = {'KeyboardInterrupt': KeyboardInterrupt, 'SystemExit': SystemExit, 'GeneratorExit': GeneratorExit}
+import asyncio
+BASE = {'KeyboardInterrupt': KeyboardInterrupt, 'SystemExit': SystemExit, 'GeneratorExit': GeneratorExit, 'CancelledError': asyncio.CancelledError}
 
 def gen_exc(r, base_p=0.15):
     if r.random() < base_p:
@@ -558,32 +559,56 @@ def gen_hostile_line(r):
     return line.encode('utf-8')
 
 FAULT_MODES = [None, None, ('call', 'xValueError'), ('inFilter', 'xKeyError'), ('outFilter', 'xRuntimeError'), ('inFilter', 'drop'),
-               ('call', 'xAssertionError'), ('outFilter', 'xTypeError'), ('inFilter', 'xMemoryError')]
+               ('call', 'xAssertionError'), ('outFilter', 'xTypeError'), ('inFilter', 'xMemoryError'),
+               # not subclasses of Exception: Irc.feedMsg's bare excepts around inFilter / the callbacks must stop them
+               ('call', 'bGeneratorExit'), ('inFilter', 'bCancelledError'), ('call', 'bCancelledError'), ('inFilter', 'bGeneratorExit')]
 
 def few_chunks(r, data):
     """at most ~25 recv() chunks (the model dumps its whole in-buffer after every operation)"""
     if not data: return []
     k = r.choice([0, 1, 2, 5, 12, 25])
     cuts = sorted(set(r.randrange(1, len(data)) for _ in range(k))) if len(data) > 1 else []
+    if r.random() < 0.15:
+        cuts = list(range(c11.RECV_SIZE, len(data), c11.RECV_SIZE))     # a burst read in full buffers
     out = []; p = 0
     for c in cuts + [len(data)]:
         out.append(data[p:c]); p = c
-    return [x for x in out if x]
+    return c11.cap_chunks([x for x in out if x])
 
-def run_l3(rig, r, lines, fault, probe_key):
+class Alarm(BaseException): pass
+def _alarm(sig, frm): raise Alarm()
+
+def guarded_run(rig, st, seconds=10):
+    """one pass of the real drivers.run() under a watchdog: a loop that does not return is a failure, not a wait"""
+    import signal
+    signal.signal(signal.SIGALRM, _alarm)
+    signal.alarm(seconds)
+    try:
+        rig.drivers.run()
+    except Alarm:
+        st.crash = 'Alarm'
+    finally:
+        signal.alarm(0)
+
+def run_l3(rig, r, lines, fault, probe_key, eof=False):
     irc, d, st = rig.session()
     if fault:
         what, mode = fault
-        setattr(rig.ctl, what, 'drop' if mode == 'drop' else EXC[mode[1:]])
-    for _ in range(2): rig.drivers.run()
+        setattr(rig.ctl, what, 'drop' if mode == 'drop' else (EXC if mode[0] == 'x' else BASE)[mode[1:]])
+    for _ in range(2): guarded_run(rig, st)
     data = b''.join(l + b'\r\n' for l in lines)
-    chunks = few_chunks(r, data)
+    chunks = c11.cap_chunks([data]) if data and len(data) % c11.RECV_SIZE == 0 else few_chunks(r, data)
     ops = []
     for c in chunks:
         rig.sock.recvs.append(('d', c)); ops.append(('sr', ('d', c)))
-        rig.drivers.run(); ops.append(('loop',))
+        guarded_run(rig, st); ops.append(('loop',))
+    if eof:
+        # the server dies in the middle of a line: unterminated tail, then EOF; the reconnect is only scheduled
+        for c in (b':n!u@h PRIVMSG #c :cut in the mid', b''):
+            rig.sock.recvs.append(('d', c)); ops.append(('sr', ('d', c)))
+            guarded_run(rig, st); ops.append(('loop',))
     for _ in range(2):
-        rig.drivers.run(); ops.append(('loop',))
+        guarded_run(rig, st); ops.append(('loop',))
     batch_pongs = [p for s in rig.socks for p in pongs_of(s.sent)]
     registered = st.name in rig.drivers._drivers and st.name not in rig.drivers._deadDrivers
     reconnects = st.reconnects
@@ -592,19 +617,19 @@ def run_l3(rig, r, lines, fault, probe_key):
     if registered:
         for _ in range(3):
             if d.connected: break
-            rig.offset += 100000; rig.drivers.run()
+            rig.offset += 100000; guarded_run(rig, st)
         if d.connected:
             n0 = len(rig.sock.sent)
             # the probe arrives the way TCP may deliver it: in three pieces
             probe = b'PING :' + probe_key + b'\r\n'
             for piece in (probe[:2], probe[2:7], probe[7:]):
-                rig.sock.recvs.append(('d', piece)); rig.drivers.run()
-            for _ in range(2): rig.drivers.run()
+                rig.sock.recvs.append(('d', piece)); guarded_run(rig, st)
+            for _ in range(2): guarded_run(rig, st)
             answered = (b'PONG :' + probe_key) in pongs_of(rig.sock.sent[n0:])
             # a channel message must still be processed as well (the per-message channel lookup is on every path)
             n1 = len(rig.sock.sent)
             rig.sock.recvs.append(('d', b':prober!u@h PRIVMSG #probe :@echo ' + probe_key + b'\r\n'))
-            for _ in range(3): rig.drivers.run()
+            for _ in range(3): guarded_run(rig, st)
             time.sleep(0)      # (commands run in this thread unless threaded)
             # (any reply counts: a server-imposed 600-character nick legitimately leaves no room for the text)
             heard = b'#probe' in rig.sock.sent[n1:] or b'prober' in rig.sock.sent[n1:]
@@ -620,9 +645,12 @@ def l3_cases(rig, r, n):
         lines = [l for l in lines if b'\n' not in l]
         fault = r.choice(FAULT_MODES)
         key = ('k%d' % r.randrange(10 ** 6)).encode()
-        obs, ops = run_l3(rig, r, lines, fault, key)
+        eof = r.random() < 0.2
+        obs, ops = run_l3(rig, r, lines, fault, key, eof)
         ok = True; msg = ''
-        if obs['crash'] or not obs['registered']:
+        if obs['crash'] in ('Hang', 'Alarm'):
+            ok = False; msg = 'the driver loop does not return (%s) after %r' % ('recv() on a blocking socket with nothing to read' if obs['crash'] == 'Hang' else 'no return within 10 s', lines)
+        elif obs['crash'] or not obs['registered']:
             ok = False; msg = 'driver removed from drivers._drivers (exception %s escaped run()) after %r' % (obs['crash'], lines)
         elif obs['answered'] is False:
             ok = False; msg = 'PING :%s fed after the batch was not answered (connected=%s, reconnects=%d, fault=%r) after %r' % (
@@ -647,7 +675,8 @@ def l3_cases(rig, r, n):
             if len(l) > 512: t.add('long-line')
             if l[:1] == b'@': t.add('tagged')
             if l.strip() in (b':', b'@tag', b'', b': :', b':a', b'@ x'): t.add('malformed')
-        c = Case({'l3': True, 'lines': [l.hex() for l in lines], 'fault': fault, 'chunks': [o[1][1].hex() for o in ops if o[0] == 'sr']},
+        if eof: t.add('eof-then-reconnect')
+        c = Case({'l3': True, 'lines': [l.hex() for l in lines], 'fault': fault, 'eof': eof, 'chunks': [o[1][1].hex() for o in ops if o[0] == 'sr']},
                  impl=impl, oracle_ok=ok, oracle_msg=msg, kind='L3-hostile', tags=tuple(sorted(t)))
         c.input['comparable'] = comparable
         cases.append(c)
@@ -700,7 +729,7 @@ def corpus_cases(rig):
     for j in load_corpus():
         lines = [bytes.fromhex(x) for x in j['lines']]
         fault = tuple(j['fault']) if j.get('fault') else None
-        obs, ops = run_l3(rig, r, lines, fault, b'corpus')
+        obs, ops = run_l3(rig, r, lines, fault, b'corpus', bool(j.get('eof')))
         ok = obs['registered'] and not obs['crash'] and obs['answered'] is True
         c = Case({'l3': True, 'corpus': j.get('note', ''), 'lines': j['lines'], 'fault': j.get('fault')},
                  impl='registered=%d answered=%s' % (obs['registered'], obs['answered']), oracle_ok=ok,
@@ -754,7 +783,7 @@ def replay(ctx, path):
     if inp.get('l3'):
         lines = [bytes.fromhex(x) for x in inp['lines']]
         fault = tuple(inp['fault']) if inp.get('fault') else None
-        obs, _ = run_l3(rig, rng.make('replay'), lines, fault, b'replay')
+        obs, _ = run_l3(rig, rng.make('replay'), lines, fault, b'replay', bool(inp.get('eof')))
         for l in lines: print('   line', l[:120])
         print('fault:', fault, '\nimplementation now:', {k: v for k, v in obs.items() if k != 'pongs'})
         return 0 if (obs['registered'] and obs['answered']) else 1
